@@ -6,7 +6,7 @@ set -u
 ID=$1; NAME=$2; WT=/tmp/seed_$ID; OUT=/tmp/seed_${ID}_out; DST=/verif/seeded/$NAME
 [ -f $OUT/patch.diff ] || { echo "no patch"; exit 2; }
 cd $WT
-git stash -q 2>/dev/null; git checkout -q -- . ; git apply $OUT/patch.diff || { echo "patch does not apply"; exit 2; }
+git checkout -q -- . ; git apply $OUT/patch.diff || { echo "patch does not apply"; exit 2; }
 [ -f _b/build.ninja ] || cmake -G Ninja -S $WT -B $WT/_b -DCMAKE_C_COMPILER=/usr/bin/clang-16 -DCMAKE_CXX_COMPILER=/usr/bin/clang++-16 -DCMAKE_BUILD_TYPE=RelWithDebInfo -DBUILD_TESTING=ON -DCMAKE_C_FLAGS=-Wno-error -DCMAKE_CXX_FLAGS=-Wno-error >/dev/null
 cmake --build _b >/dev/null 2>&1 || { echo "build with change FAILED"; exit 2; }
 SUITE=$(ctest --test-dir _b -j8 --timeout 900 2>&1 | grep "tests passed")
